@@ -37,6 +37,10 @@ func layerResubEmpty(h *harness.H) {
 		if msg := resubEmptyCase(h, c); msg != "" {
 			h.Inconclusive("resub-empty:" + msg)
 		}
+		h.Eval()
+		if msg := sharedListCase(h, c); msg != "" {
+			h.Inconclusive("shared-list:" + msg)
+		}
 	}
 }
 
@@ -157,5 +161,133 @@ func resubEmptyCase(h *harness.H, c int) string {
 		return "consumer-did-not-exit"
 	}
 	h.Distinct(fmt.Sprintf("resub-empty|%d|%d|%v|%d", buf, len(old), nilList, m/25))
+	return ""
+}
+
+// sharedListCase: two streamers opened from the SAME key slice (a caller re-using its
+// list), one of them re-subscribed to a list that fits the slice's capacity. The other
+// streamer's subscription and the caller's list must not change. Streamer B's log is
+// closed by a frame on a channel that is in its subscription whatever happened (k2):
+// frames reach a streamer in write order, so when the marker arrives every earlier frame
+// has been delivered or filtered.
+func sharedListCase(h *harness.H, c int) string {
+	r := h.Rand("shared-list", c)
+	ctx := context.Background()
+	db, err := cesium.Open(ctx, "", cesium.WithFS(xfs.NewMem()),
+		cesium.WithStreamingConfig(cesium.DBStreamingConfig{BufferSize: []int{1, 8, 1000}[r.Intn(3)], SlowConsumerTimeout: 120 * time.Second}))
+	if err != nil {
+		return "open-db"
+	}
+	defer func() { _ = db.Close() }()
+	const (
+		k1, k2, k3, kSent key = 1, 2, 3, 9
+	)
+	for _, k := range []key{k1, k2, k3, kSent} {
+		if err := db.CreateChannel(ctx, cesium.Channel{Key: k, Name: fmt.Sprintf("v%d", k), DataType: telem.Int64T, Virtual: true}); err != nil {
+			return "create-channel"
+		}
+	}
+	syncT := true
+	w, err := db.OpenWriter(ctx, cesium.WriterConfig{
+		ControlSubject: xcontrol.Subject{Key: "w"}, Channels: []key{k1, k2, k3, kSent}, Start: 1,
+		Mode: cesium.WriterModeStreamOnly, Sync: &syncT,
+	})
+	if err != nil {
+		return "open-writer"
+	}
+	defer func() { _ = w.Close() }()
+	shared := []key{k1, k2}
+	type cons struct {
+		in     confluence.Inlet[cesium.StreamerRequest]
+		counts [16]atomic.Int64
+		done   chan struct{}
+		cancel context.CancelFunc
+	}
+	open := func() (*cons, bool) {
+		st, err := db.NewStreamer(ctx, cesium.StreamerConfig{Channels: shared})
+		if err != nil {
+			return nil, false
+		}
+		in, out := confluence.Attach(st, 16)
+		sctx, cancel := signal.Isolated()
+		st.Flow(sctx, confluence.CloseOutputInletsOnExit())
+		cn := &cons{in: in, done: make(chan struct{}), cancel: cancel}
+		go func() {
+			defer close(cn.done)
+			for res := range out.Outlet() {
+				for _, k := range res.Frame.KeysSlice() {
+					if int(k) < len(cn.counts) {
+						cn.counts[k].Add(1)
+					}
+				}
+			}
+		}()
+		return cn, true
+	}
+	a, ok := open()
+	if !ok {
+		return "new-streamer"
+	}
+	b, ok := open()
+	if !ok {
+		return "new-streamer"
+	}
+	defer func() {
+		for _, cn := range []*cons{a, b} {
+			cn.in.Close()
+			cn.cancel()
+			select {
+			case <-cn.done:
+			case <-time.After(5 * time.Second):
+			}
+		}
+	}()
+	write := func(k key, v int64) bool {
+		_, err := w.Write(telem.UnaryFrame[key](k, telem.NewSeriesV[int64](v)))
+		return err == nil
+	}
+	waitFor := func(cond func() bool, step func() bool) bool {
+		deadline := time.Now().Add(4 * time.Second) // watchdog: never a verdict by itself
+		for !cond() {
+			if time.Now().After(deadline) || (step != nil && !step()) {
+				return false
+			}
+			runtime.Gosched()
+			time.Sleep(50 * time.Microsecond)
+		}
+		return true
+	}
+	// A is re-subscribed to a list of the same length; confirmed by a sentinel
+	a.in.Inlet() <- cesium.StreamerRequest{Channels: []key{k3, kSent}}
+	if !waitFor(func() bool { return a.counts[kSent].Load() >= 1 }, func() bool { return write(kSent, 7) }) {
+		return "sentinel-not-delivered"
+	}
+	m := r.Range(20, 60)
+	for i := 0; i < m; i++ {
+		if !write(k1, int64(100+i)) || !write(k3, int64(300+i)) {
+			return "write-failed"
+		}
+	}
+	base2 := b.counts[k2].Load()
+	marker := waitFor(func() bool { return b.counts[k2].Load() > base2 }, func() bool { return write(k2, 9) })
+	got1, got3 := b.counts[k1].Load(), b.counts[k3].Load()
+	if !marker && got3 == 0 && shared[0] == k1 && shared[1] == k2 {
+		return "marker-not-delivered" // nothing positive observed either: inconclusive
+	}
+	h.Count("shared_list_frames_checked", 2*m)
+	wit := map[string]any{"written_each": m, "b_received_k1": got1, "b_received_k3": got3, "callers_list_after": append([]key{}, shared...)}
+	if got3 > 0 {
+		h.Violation("resub-empty", c, "c20:shared-list:streamer-received-a-channel-it-never-subscribed-to",
+			fmt.Sprintf("streamers A and B were opened from the same key slice [1 2]; A was re-subscribed to [3 9]; B, never re-subscribed, received %d frames of channel 3", got3), wit)
+	}
+	if marker && got1 != int64(m) {
+		h.Violation("resub-empty", c, "c20:shared-list:always-ready-streamer-missed-subscribed-frames",
+			fmt.Sprintf("streamers A and B were opened from the same key slice [1 2]; A was re-subscribed to [3 9]; B, never re-subscribed and always ready, received %d of the %d frames written to channel 1 before the marker on channel 2", got1, m), wit)
+	}
+	if shared[0] != k1 || shared[1] != k2 {
+		h.Violation("resub-empty", c, "c20:shared-list:callers-key-list-overwritten",
+			fmt.Sprintf("the caller's key slice [1 2] handed to NewStreamer reads %v after another streamer's re-subscription", shared), wit)
+	}
+	h.Distinct(fmt.Sprintf("shared-list|%d", m/10))
 	return ""
 }
